@@ -1104,7 +1104,33 @@ func (e *Exec) runLoop(st *State, spec *LoopSpec, ord int, label string, vars []
 	cond func(*State) Term, body func(*State) *State, post func(*State) *State, p token.Pos, synth map[string]types.Object) *State {
 
 	if spec != nil && len(spec.Invariants) > 0 {
-		return e.cutLoop(st, spec, ord, label, vars, cond, body, post, p)
+		// invariants that no longer fit the code (the loop was reshaped, a local renamed): the loop degrades to the
+		// bounded check instead of turning a harmless edit into a contract error
+		ok := true
+		if e.dry == 0 {
+			savedSpecPos := e.specPos
+			e.specPos = p
+			for _, inv := range spec.Invariants {
+				if inv.E == nil {
+					continue
+				}
+				if _, fine := e.tryTr(inv.E, e.localEnv(st)); !fine {
+					ok = false
+					e.note("loop-invariant", fmt.Sprintf("%s loop %d: invariant `%s` does not apply to the current code (unknown identifier or type): invariants of this loop dropped, loop checked by bounded unrolling", e.fn.Key, ord, inv.Src))
+					break
+				}
+			}
+			e.specPos = savedSpecPos
+		}
+		if ok {
+			return e.cutLoop(st, spec, ord, label, vars, cond, body, post, p)
+		}
+		if e.droppedLoops == nil {
+			e.droppedLoops = map[int]bool{}
+		}
+		e.droppedLoops[ord] = true
+	} else if spec != nil && e.droppedLoops[ord] {
+		spec = nil
 	}
 	// unrolling
 	K := e.opts.Unroll
@@ -1281,6 +1307,11 @@ func (e *Exec) execRange(st *State, s *ast.RangeStmt, label string) *State {
 	}
 	e.synth = append(e.synth, ctr)
 	defer func() { e.synth = e.synth[:len(e.synth)-1] }()
+	if !hidden {
+		// in invariants the named key of `for i := range s` denotes the counter (same contract text as a 3-clause loop)
+		e.synthAlias = append(e.synthAlias, synthAlias{idxObj.Name(), ctr})
+		defer func() { e.synthAlias = e.synthAlias[:len(e.synthAlias)-1] }()
+	}
 	st.vars[ctr] = IntLit(0)
 	var valObj types.Object
 	if id, ok := s.Value.(*ast.Ident); ok && id.Name != "_" {
